@@ -44,8 +44,8 @@ Inductive case :=
 | CaseWrite (direct internal handled wrote_bytes fell_back : bool)
   (* dns.PackDomainName(s, make([]byte, buflen), off, dictionary, compress): ok?, new offset, the
      octets written at [off, off1), the dictionary entries added (in order of insertion) *)
-| CaseName (s : list N) (buflen off : nat) (cm : option (list (list N * nat))) (compress : bool)
-           (ok : bool) (off1 : nat) (written : list N) (added : list (list N * nat))
+| CaseName (s : list N) (buflen off : N) (cm : option (list (list N * N))) (compress : bool)
+           (ok : bool) (off1 : N) (written : list N) (added : list (list N * N))
   (* a message of step-decomposable records through TryPack (dirty pool) and the library:
      handled?, library packs?, the library's bytes (= TryPack's when handled) *)
 | CaseConcrete (h : mhdr) (compress : bool) (qs : list (list N * N * N)) (an ns ex : list crec)
@@ -84,12 +84,13 @@ Definition release_n (cm : option N) : option N :=
     (release unit unit N tt 0 (fun n => n)
        (mk_pstate unit unit N [] cm (Some 1) (mk_rrhdr unit tt 1 1 1 1) (Some (mk_rrhdr unit tt 1 1 1 1, tt)))).
 
-Fixpoint entries_eqb (a b : list (list N * nat)) : bool :=
+Fixpoint entries_eqb (a : list (list N * nat)) (b : list (list N * N)) : bool :=
   match a, b with
   | [], [] => true
-  | (k1, v1) :: r1, (k2, v2) :: r2 => bytes_eqb k1 k2 && (v1 =? v2)%nat && entries_eqb r1 r2
+  | (k1, v1) :: r1, (k2, v2) :: r2 => bytes_eqb k1 k2 && (N.of_nat v1 =? v2) && entries_eqb r1 r2
   | _, _ => false
   end.
+Definition dict_of (l : list (list N * N)) : dict := map (fun e => (fst e, N.to_nat (snd e))) l.
 
 Definition lib_dyn : dynv := mk_dyn false true false library_pkg.
 Definition slot_of (r : crec) : slot name body :=
@@ -132,10 +133,10 @@ Definition check_case (c : case) : bool :=
   | CaseWrite direct internal handled wrote fell =>
       Bool.eqb wrote (write_msg_direct direct internal handled) && Bool.eqb fell (negb wrote)
   | CaseName s buflen off cm compress ok off1 written added =>
-      match pack_name_c s (repeat 0 buflen) off cm compress with
+      match pack_name_c s (repeat 0 (N.to_nat buflen)) (N.to_nat off) (option_map dict_of cm) compress with
       | None => negb ok
       | Some (o, b, cm') =>
-          ok && (o =? off1)%nat && bytes_eqb (firstn (o - off) (skipn off b)) written &&
+          ok && (N.of_nat o =? off1) && bytes_eqb (firstn (o - N.to_nat off) (skipn (N.to_nat off) b)) written &&
           match cm, cm' with
           | None, None => match added with [] => true | _ => false end
           | Some d, Some d' => entries_eqb (rev (firstn (length d' - length d) d')) added &&
@@ -206,9 +207,10 @@ Definition spec_case (c : case) : bool :=
   | CaseName s buflen off cm compress ok off1 written added =>
       (* an uncompressed name occupies its presentation length + 1 octets, a compressed one
          no more; nothing is written past the buffer *)
-      if ok then (off1 <=? buflen)%nat && (length written =? off1 - off)%nat &&
-                 (off1 <=? off + name_len s)%nat &&
-                 (match cm with None => (off1 =? off + (match s with [] => 0 | _ => name_len s end))%nat | Some _ => true end)
+      (* (an empty name writes nothing and returns the offset it was given, wherever that is) *)
+      if ok then ((off1 <=? buflen) || match s with [] => true | _ => false end) && (len written =? off1 - off) &&
+                 (off1 <=? off + N.of_nat (name_len s)) &&
+                 (match cm with None => off1 =? off + (match s with [] => 0 | _ => N.of_nat (name_len s) end) | Some _ => true end)
       else true
   | CaseConcrete h compress qs an ns ex handled lib_ok bytes =>
       (* whatever the pooled packer agrees to encode the library encodes *)
